@@ -272,3 +272,11 @@ Theorem gen_expand_trx : forall e, g_expand_trx e = expand_trx e.
 Proof. reflexivity. Qed.
 Theorem gen_expand_modes : forall ms, g_expand_modes ms = expand_modes ms.
 Proof. reflexivity. Qed.
+
+(* ------------------------------------------------------------------ the gnpy-api:api section *)
+(* yang_to_legacy converts its argument in place; the API branch must therefore work on a copy of the caller's payload
+   (and of every extra item), and converts exactly the six core sections *)
+Theorem gen_api_section :
+  g_api_payload_copied = true /\ g_api_item_copied = true /\
+  g_api_core_keys = [TOPO_NMSP; SERV_NMSP; EQPT_NMSP; SIM_PARAMS_NMSP; EDFA_CONFIG_NMSP; RESP_NMSP].
+Proof. repeat split. Qed.
